@@ -368,7 +368,7 @@ func runC06(c *wk.Ctx) {
 	// statement of the client these sessions reach paused singly.
 	var peerTs []c08Transcript
 	for _, t := range c08Transcripts() {
-		if t.name == "v3-concurrent-signals-errors" || t.lateRecv {
+		if t.name == "v3-concurrent-signals-errors" || strings.HasPrefix(t.name, "v3-step-fatal-without-run-id") || t.lateRecv {
 			peerTs = append(peerTs, t)
 		}
 	}
@@ -378,6 +378,10 @@ func runC06(c *wk.Ctx) {
 		res := c08Replay(&peerTs[ti], c08Fault{kind: rig.FaultNone, failWrites: -1}, rig.ModeBuffered, 1)
 		c08Sched = nil
 		if res.monitor.Outcome != "done" {
+			// the unperturbed session itself does not complete: it is judged as a case (no pause) below
+			for m := 0; m < 3; m++ {
+				cases = append(cases, caseRef{ti, 5, -1, m})
+			}
 			continue
 		}
 		for p, n := range res.hits {
